@@ -413,431 +413,441 @@ def run(repo, chk):
     c_enum.update({k: v for k, v in cxx.const_ints(cpp).items() if k not in c_enum})
 
     # ---------------------------------------------------------------- R-C15-1 opcode tables
-    for name, val in sorted(py_enum.items(), key=lambda kv: -kv[1]):
-        cv = c_enum.get(name.upper())
-        chk.expect(cv == val, "R-C15-1", "opcode %s has the same value in OperationEnum and in the C++ table" % name, loc(EXPR, enum_cls),
-                   "the Python front end writes these integers into the RPN that the C++ stack machine decodes", expected=val, found=cv)
-    for name in c_enum:
-        if name.lower() not in py_enum and c_enum[name] < 0:
-            chk.bad("R-C15-1", "C++ opcode %s exists in OperationEnum" % name, HPP, found=c_enum[name])
-    chk.expect(len(set(py_enum.values())) == len(py_enum) and all(v < 0 for v in py_enum.values()), "R-C15-1", "opcodes are distinct negative integers (non-negative entries are leaf indices)", loc(EXPR, enum_cls))
-    body = cxx.function_body(cpp, r"double\s+_evaluate\s*\(")
-    branches = cxx.opcode_branches(body)
-    ops = operator_classes(repo)
-    used = {op for (_, op, _) in ops.values() if op}
-    for op in sorted(used):
-        chk.expect(op.upper() in branches, "R-C15-1", "opcode %s emitted by the Python front end has a branch in _evaluate" % op, CPP, found=sorted(branches))
-    for b in sorted(branches):
-        chk.expect(b.lower() in used, "R-C15-1", "C++ branch %s corresponds to an Operator class" % b, CPP, found=sorted(used))
-    chk.expect("throw" in body and "Operation not recognized" in body, "R-C15-1", "_evaluate rejects unknown opcodes", CPP)
-    chk.floor("R-C15-1", 18 * 3)
+    with chk.part("R-C15-1 opcode tables"):
+        for name, val in sorted(py_enum.items(), key=lambda kv: -kv[1]):
+            cv = c_enum.get(name.upper())
+            chk.expect(cv == val, "R-C15-1", "opcode %s has the same value in OperationEnum and in the C++ table" % name, loc(EXPR, enum_cls),
+                       "the Python front end writes these integers into the RPN that the C++ stack machine decodes", expected=val, found=cv)
+        for name in c_enum:
+            if name.lower() not in py_enum and c_enum[name] < 0:
+                chk.bad("R-C15-1", "C++ opcode %s exists in OperationEnum" % name, HPP, found=c_enum[name])
+        chk.expect(len(set(py_enum.values())) == len(py_enum) and all(v < 0 for v in py_enum.values()), "R-C15-1", "opcodes are distinct negative integers (non-negative entries are leaf indices)", loc(EXPR, enum_cls))
+        body = cxx.function_body(cpp, r"double\s+_evaluate\s*\(")
+        branches = cxx.opcode_branches(body)
+        ops = operator_classes(repo)
+        used = {op for (_, op, _) in ops.values() if op}
+        for op in sorted(used):
+            chk.expect(op.upper() in branches, "R-C15-1", "opcode %s emitted by the Python front end has a branch in _evaluate" % op, CPP, found=sorted(branches))
+        for b in sorted(branches):
+            chk.expect(b.lower() in used, "R-C15-1", "C++ branch %s corresponds to an Operator class" % b, CPP, found=sorted(used))
+        chk.expect("throw" in body and "Operation not recognized" in body, "R-C15-1", "_evaluate rejects unknown opcodes", CPP)
+        chk.floor("R-C15-1", 18 * 3)
 
     # ---------------------------------------------------------------- R-C15-2 opcode semantics
-    # emission order of every get_rpn(self, rpn_map, leaf_ndx_map): the operands in constructor order (leaf -> its index, non-leaf -> its whole
-    # program), then the opcode; decided by abstract interpretation over all leaf / non-leaf combinations
-    what = {"BinaryOperator": "operand1, operand2, opcode", "UnaryOperator": "operand, opcode", "IfElseOperator": "condition, then, else, opcode",
-            "InequalityOperator": "body, lb, ub, opcode"}
-    n_variable = {"BinaryOperator": 2, "UnaryOperator": 1, "IfElseOperator": 3, "InequalityOperator": 1}
-    rpn_info = {}
-    for cname_, cdef_ in sorted(repo.classes(EXPR).items()):
-        g_ = [n for n in cdef_.body if isinstance(n, ast.FunctionDef) and n.name == "get_rpn" and len(n.args.args) == 3]
-        if not g_ or cname_ == "Operator":
-            continue
-        fnr, operands_, variable_, progs = rpn_programs(repo, cname_)
-        chk.fn(fnr)
-        rpn_info[cname_] = (fnr, operands_, progs)
-        if cname_ in n_variable:
-            chk.expect(variable_ == operands_[:n_variable[cname_]], "R-C15-2", "%s.get_rpn distinguishes leaf and non-leaf for each of its expression operands" % cname_, loc(fnr),
-                       "a leaf has no program in rpn_map and a non-leaf no index in leaf_ndx_map", expected=operands_[:n_variable[cname_]], found=variable_)
-        for combo, r in sorted(progs.items()):
-            shown = tuple(lf for o, lf in zip(operands_, combo) if o in variable_)
-            chk.expect(r["got"] == r["want"], "R-C15-2", "%s.get_rpn emits %s [leaf=%s]" % (cname_, what.get(cname_, "its operands in constructor order, opcode"), shown if len(shown) != 1 else shown[0]),
-                       loc(fnr), expected=r["want"], found=r["got"])
-    for cname_ in what:
-        if cname_ not in rpn_info:
-            raise AnchorError("%s.get_rpn vanished" % cname_)
-    # C++ branches: pops are in reverse emission order
-    for cname, (base, op, cdef) in sorted(ops.items()):
-        if op is None or op.upper() not in branches:
-            continue
-        br = cxx.analyse_branch(branches[op.upper()])
-        pops, result = br["pops"], br["result"]
-        where = "%s (branch %s)" % (CPP, op.upper())
-        if base == "BinaryOperator":
-            pyop = None
-            for n in cdef.body:
-                if isinstance(n, ast.Assign) and dotted(n.targets[0]) == "operation":
-                    pyop = PY_BIN_OP.get(unparse(n.value))
-            chk.expect(pyop == op, "R-C15-2", "%s: Python operation matches its opcode %s" % (cname, op), loc(EXPR, cdef), found=pyop)
-            ok2 = len(pops) == 2 and op in BIN_CPP and result == "res=" + BIN_CPP[op].format(a=pops[1], b=pops[0])
-            chk.expect(ok2, "R-C15-2", "C++ %s pops the right operand first and computes operand1 %s operand2" % (op.upper(), op), where,
-                       "operand2 is on top of the stack", expected="res=" + (BIN_CPP.get(op, "?").format(a="<2nd pop>", b="<1st pop>")), found="pops=%s %s" % (pops, result))
-        elif base == "UnaryOperator":
-            if op == "sign":
-                ok1 = len(pops) == 1 and re.sub(r"\s", "", result) in ("if(%s>=0)res=1.0;elseres=-1.0" % pops[0],)
-                # Python side: sign() evaluated on native numbers on both sides of and at the boundary
-                pyf = repo.func(EXPR, "sign")
-                pvals = {x: eval_native(repo, pyf, {pyf.args.args[0].arg: x}) for x in (-3, -0.5, -1e-300, 0, 0.0, 1e-300, 2, 1.5)}
-                okpy = all(isinstance(r, (int, float)) and not isinstance(r, bool) and r == (1 if x >= 0 else -1) for x, r in pvals.items())
-                chk.expect(ok1 and okpy, "R-C15-2", "SIGN: +1 for arg >= 0 else -1 on both sides", where, found="cpp: %s ; py: %s" % (result, "ok" if okpy else pvals))
-                opf = method_of(repo, cdef, "operation")
-                if opf is not None and opf.args.args:
-                    vv = sp.Symbol("v", real=True)
-                    o_ = SymExec(call_hook=py_calls).run(opf, {opf.args.args[0].arg: vv})
-                    chk.expect(len(o_) == 1 and isinstance(o_[0].ret, sp.Basic) and o_[0].ret == sp.sign(vv), "R-C15-2", "%s.operation is sign(val)" % cname, loc(EXPR, opf),
-                               found=str(o_[0].ret) if o_ else None)
-            else:
-                ok1 = len(pops) == 1 and op in UN_CPP and result == "res=" + UN_CPP[op].format(a=pops[0])
-                chk.expect(ok1, "R-C15-2", "C++ %s computes %s(arg)" % (op.upper(), op), where, expected="res=" + UN_CPP.get(op, "?").format(a="arg"), found="pops=%s %s" % (pops, result))
-                opf = method_of(repo, cdef, "operation")
-                if opf is not None and opf.args.args:
-                    # the operation applied to a symbol denotes the function of its opcode (whatever the parameter / temporaries are called)
-                    vv = sp.Symbol("v", real=True)
-                    wantf = {"negation": -vv, "abs": sp.Abs(vv)}.get(op, getattr(sp, op)(vv) if hasattr(sp, op) else None)
-                    o_ = [x for x in SymExec(call_hook=py_calls).run(opf, {opf.args.args[0].arg: vv})]
-                    gotf = o_[0].ret if len(o_) == 1 and o_[0].raised is None else None
-                    want = "-val" if op == "negation" else "%s(val)" % op
-                    chk.expect(wantf is not None and isinstance(gotf, sp.Basic) and is_zero(gotf - wantf), "R-C15-2", "%s.operation is %s" % (cname, want), loc(EXPR, opf),
-                               expected=str(wantf), found=str(gotf))
-        elif cname == "IfElseOperator":
-            ok3 = len(pops) == 3 and result == "if(%s==1){res=%s;}else{res=%s;}" % (pops[2], pops[1], pops[0])
-            ok3 = ok3 or (len(pops) == 3 and re.sub(r"[{}]", "", result) == "if(%s==1)res=%s;elseres=%s" % (pops[2], pops[1], pops[0]))
-            chk.expect(ok3, "R-C15-2", "C++ IF_ELSE pops else, then, condition and selects `then` iff condition == 1", where, found="pops=%s %s" % (pops, result))
-        elif cname == "InequalityOperator":
-            r = re.sub(r"[{}]", "", result)
-            ok3 = len(pops) == 3 and r == "if(%s>=%s&&%s<=%s)res=1.0;elseres=0.0" % (pops[2], pops[1], pops[2], pops[0])
-            chk.expect(ok3, "R-C15-2", "C++ INEQUALITY pops ub, lb, body and yields 1.0 iff lb <= body <= ub", where, found="pops=%s %s" % (pops, result))
-            # Python side: evaluate() run on concrete bounds 1, 3 and body values below / at / between / at / above them, body leaf or not
-            ev = repo.func(EXPR, "InequalityOperator.evaluate")
-            f_body, f_lb, f_ub = ctor_fields(repo, "InequalityOperator")
-            bad_pts = []
-            for leaf in (True, False):
-                for b in (0, 1, 2, 3, 4, 0.999, 3.001):
-                    vals = {"self.%s.value" % f_lb: 1, "self.%s.value" % f_ub: 3}
-                    if leaf:
-                        vals["self.%s.value" % f_body] = b
+    with chk.part("R-C15-2 opcode semantics"):
+        # emission order of every get_rpn(self, rpn_map, leaf_ndx_map): the operands in constructor order (leaf -> its index, non-leaf -> its whole
+        # program), then the opcode; decided by abstract interpretation over all leaf / non-leaf combinations
+        what = {"BinaryOperator": "operand1, operand2, opcode", "UnaryOperator": "operand, opcode", "IfElseOperator": "condition, then, else, opcode",
+                "InequalityOperator": "body, lb, ub, opcode"}
+        n_variable = {"BinaryOperator": 2, "UnaryOperator": 1, "IfElseOperator": 3, "InequalityOperator": 1}
+        rpn_info = {}
+        for cname_, cdef_ in sorted(repo.classes(EXPR).items()):
+            g_ = [n for n in cdef_.body if isinstance(n, ast.FunctionDef) and n.name == "get_rpn" and len(n.args.args) == 3]
+            if not g_ or cname_ == "Operator":
+                continue
+            fnr, operands_, variable_, progs = rpn_programs(repo, cname_)
+            chk.fn(fnr)
+            rpn_info[cname_] = (fnr, operands_, progs)
+            if cname_ in n_variable:
+                chk.expect(variable_ == operands_[:n_variable[cname_]], "R-C15-2", "%s.get_rpn distinguishes leaf and non-leaf for each of its expression operands" % cname_, loc(fnr),
+                           "a leaf has no program in rpn_map and a non-leaf no index in leaf_ndx_map", expected=operands_[:n_variable[cname_]], found=variable_)
+            for combo, r in sorted(progs.items()):
+                shown = tuple(lf for o, lf in zip(operands_, combo) if o in variable_)
+                chk.expect(r["got"] == r["want"], "R-C15-2", "%s.get_rpn emits %s [leaf=%s]" % (cname_, what.get(cname_, "its operands in constructor order, opcode"), shown if len(shown) != 1 else shown[0]),
+                           loc(fnr), expected=r["want"], found=r["got"])
+        for cname_ in what:
+            if cname_ not in rpn_info:
+                raise AnchorError("%s.get_rpn vanished" % cname_)
+        # C++ branches: pops are in reverse emission order
+        for cname, (base, op, cdef) in sorted(ops.items()):
+            if op is None or op.upper() not in branches:
+                continue
+            br = cxx.analyse_branch(branches[op.upper()])
+            pops, result = br["pops"], br["result"]
+            where = "%s (branch %s)" % (CPP, op.upper())
+            if base == "BinaryOperator":
+                pyop = None
+                for n in cdef.body:
+                    if isinstance(n, ast.Assign) and dotted(n.targets[0]) == "operation":
+                        pyop = PY_BIN_OP.get(unparse(n.value))
+                chk.expect(pyop == op, "R-C15-2", "%s: Python operation matches its opcode %s" % (cname, op), loc(EXPR, cdef), found=pyop)
+                ok2 = len(pops) == 2 and op in BIN_CPP and result == "res=" + BIN_CPP[op].format(a=pops[1], b=pops[0])
+                chk.expect(ok2, "R-C15-2", "C++ %s pops the right operand first and computes operand1 %s operand2" % (op.upper(), op), where,
+                           "operand2 is on top of the stack", expected="res=" + (BIN_CPP.get(op, "?").format(a="<2nd pop>", b="<1st pop>")), found="pops=%s %s" % (pops, result))
+            elif base == "UnaryOperator":
+                if op == "sign":
+                    ok1 = len(pops) == 1 and re.sub(r"\s", "", result) in ("if(%s>=0)res=1.0;elseres=-1.0" % pops[0],)
+                    # Python side: sign() evaluated on native numbers on both sides of and at the boundary
+                    pyf = repo.func(EXPR, "sign")
+                    pvals = {x: eval_native(repo, pyf, {pyf.args.args[0].arg: x}) for x in (-3, -0.5, -1e-300, 0, 0.0, 1e-300, 2, 1.5)}
+                    okpy = all(isinstance(r, (int, float)) and not isinstance(r, bool) and r == (1 if x >= 0 else -1) for x, r in pvals.items())
+                    chk.expect(ok1 and okpy, "R-C15-2", "SIGN: +1 for arg >= 0 else -1 on both sides", where, found="cpp: %s ; py: %s" % (result, "ok" if okpy else pvals))
+                    opf = method_of(repo, cdef, "operation")
+                    if opf is not None and opf.args.args:
+                        vv = sp.Symbol("v", real=True)
+                        o_ = SymExec(call_hook=py_calls).run(opf, {opf.args.args[0].arg: vv})
+                        chk.expect(len(o_) == 1 and isinstance(o_[0].ret, sp.Basic) and o_[0].ret == sp.sign(vv), "R-C15-2", "%s.operation is sign(val)" % cname, loc(EXPR, opf),
+                                   found=str(o_[0].ret) if o_ else None)
+                else:
+                    ok1 = len(pops) == 1 and op in UN_CPP and result == "res=" + UN_CPP[op].format(a=pops[0])
+                    chk.expect(ok1, "R-C15-2", "C++ %s computes %s(arg)" % (op.upper(), op), where, expected="res=" + UN_CPP.get(op, "?").format(a="arg"), found="pops=%s %s" % (pops, result))
+                    opf = method_of(repo, cdef, "operation")
+                    if opf is not None and opf.args.args:
+                        # the operation applied to a symbol denotes the function of its opcode (whatever the parameter / temporaries are called)
+                        vv = sp.Symbol("v", real=True)
+                        wantf = {"negation": -vv, "abs": sp.Abs(vv)}.get(op, getattr(sp, op)(vv) if hasattr(sp, op) else None)
+                        o_ = [x for x in SymExec(call_hook=py_calls).run(opf, {opf.args.args[0].arg: vv})]
+                        gotf = o_[0].ret if len(o_) == 1 and o_[0].raised is None else None
+                        want = "-val" if op == "negation" else "%s(val)" % op
+                        chk.expect(wantf is not None and isinstance(gotf, sp.Basic) and is_zero(gotf - wantf), "R-C15-2", "%s.operation is %s" % (cname, want), loc(EXPR, opf),
+                                   expected=str(wantf), found=str(gotf))
+            elif cname == "IfElseOperator":
+                ok3 = len(pops) == 3 and result == "if(%s==1){res=%s;}else{res=%s;}" % (pops[2], pops[1], pops[0])
+                ok3 = ok3 or (len(pops) == 3 and re.sub(r"[{}]", "", result) == "if(%s==1)res=%s;elseres=%s" % (pops[2], pops[1], pops[0]))
+                chk.expect(ok3, "R-C15-2", "C++ IF_ELSE pops else, then, condition and selects `then` iff condition == 1", where, found="pops=%s %s" % (pops, result))
+            elif cname == "InequalityOperator":
+                r = re.sub(r"[{}]", "", result)
+                ok3 = len(pops) == 3 and r == "if(%s>=%s&&%s<=%s)res=1.0;elseres=0.0" % (pops[2], pops[1], pops[2], pops[0])
+                chk.expect(ok3, "R-C15-2", "C++ INEQUALITY pops ub, lb, body and yields 1.0 iff lb <= body <= ub", where, found="pops=%s %s" % (pops, result))
+                # Python side: evaluate() run on concrete bounds 1, 3 and body values below / at / between / at / above them, body leaf or not
+                ev = repo.func(EXPR, "InequalityOperator.evaluate")
+                f_body, f_lb, f_ub = ctor_fields(repo, "InequalityOperator")
+                bad_pts = []
+                for leaf in (True, False):
+                    for b in (0, 1, 2, 3, 4, 0.999, 3.001):
+                        vals = {"self.%s.value" % f_lb: 1, "self.%s.value" % f_ub: 3}
+                        if leaf:
+                            vals["self.%s.value" % f_body] = b
 
-                    def ch(name, node, args, kwargs, st, ex, recv, leaf=leaf):
-                        if name == "self.%s.is_leaf" % f_body:
-                            return leaf
-                        return NotImplemented
+                        def ch(name, node, args, kwargs, st, ex, recv, leaf=leaf):
+                            if name == "self.%s.is_leaf" % f_body:
+                                return leaf
+                            return NotImplemented
 
-                    def ah(base, attr, st, vals=vals):
-                        if isinstance(base, Opaque) and (base.text + "." + attr) in vals:
-                            return vals[base.text + "." + attr]
-                        return NotImplemented
-                    ex = SymExec(call_hook=ch, attr_hook=ah)
-                    vd = {} if leaf else {"self.%s" % f_body: b}
-                    outs = ex.run(ev, {ev.args.args[1].arg: vd, "self": Opaque("self")})
-                    r_ = outs[0].env[ev.args.args[1].arg].get("self") if len(outs) == 1 else None
-                    if not (isinstance(r_, bool) and r_ == (1 <= b <= 3)):
-                        bad_pts.append((leaf, b, r_))
-            chk.expect(not bad_pts, "R-C15-2", "InequalityOperator.evaluate is lb <= body <= ub", loc(ev), expected="True exactly for 1 <= body <= 3 (bounds 1, 3)",
-                       found=["body %s=%s -> %s" % ("leaf" if l else "expr", b, r) for l, b, r in bad_pts])
-    chk.expect("stack[stack_ndx]=res" in cxx.norm(body) and "++stack_ndx" in cxx.norm(body), "R-C15-2", "_evaluate pushes the result of every operation", CPP)
-    chk.floor("R-C15-2", 4 + 4 + 2 + 8 + 2 + 18)
+                        def ah(base, attr, st, vals=vals):
+                            if isinstance(base, Opaque) and (base.text + "." + attr) in vals:
+                                return vals[base.text + "." + attr]
+                            return NotImplemented
+                        ex = SymExec(call_hook=ch, attr_hook=ah)
+                        vd = {} if leaf else {"self.%s" % f_body: b}
+                        outs = ex.run(ev, {ev.args.args[1].arg: vd, "self": Opaque("self")})
+                        r_ = outs[0].env[ev.args.args[1].arg].get("self") if len(outs) == 1 else None
+                        if not (isinstance(r_, bool) and r_ == (1 <= b <= 3)):
+                            bad_pts.append((leaf, b, r_))
+                chk.expect(not bad_pts, "R-C15-2", "InequalityOperator.evaluate is lb <= body <= ub", loc(ev), expected="True exactly for 1 <= body <= 3 (bounds 1, 3)",
+                           found=["body %s=%s -> %s" % ("leaf" if l else "expr", b, r) for l, b, r in bad_pts])
+        chk.expect("stack[stack_ndx]=res" in cxx.norm(body) and "++stack_ndx" in cxx.norm(body), "R-C15-2", "_evaluate pushes the result of every operation", CPP)
+        chk.floor("R-C15-2", 4 + 4 + 2 + 8 + 2 + 18)
 
     # ---------------------------------------------------------------- R-C15-3 derivative rules
-    D = sp.Symbol("der", real=True)
-    v1, v2, v = sp.Symbol("v1", positive=True), sp.Symbol("v2", real=True), sp.Symbol("v", real=True)
-    bin_ops = {"add": v1 + v2, "sub": v1 - v2, "mul": v1 * v2, "div": v1 / v2, "pow": v1 ** v2}
-    un_ops = {"negation": -v, "exp": sp.exp(v), "log": sp.log(v), "sin": sp.sin(v), "cos": sp.cos(v), "tan": sp.tan(v), "asin": sp.asin(v),
-              "acos": sp.acos(v), "atan": sp.atan(v)}
-    for cname, (base, op, cdef) in sorted(ops.items()):
-        dfn = [n for n in cdef.body if isinstance(n, ast.FunctionDef) and n.name == "diff_down"]
-        if not dfn:
-            chk.bad("R-C15-3", "%s defines diff_down" % cname, loc(EXPR, cdef))
-            continue
-        dfn = dfn[0]
-        dfn._rel, dfn._qual = EXPR, cname + ".diff_down"
-        chk.fn(dfn)
-        if base == "BinaryOperator":
-            f = bin_ops.get(op)
-            combos = [(False, False), (False, True), (True, True), (True, False)] if op == "pow" else [None]
-            for combo in combos:
-                def ch(name, node, args, kwargs, st, ex, recv, combo=combo):
-                    if combo is not None and name == "self._operand2.is_leaf":
-                        return combo[0]
-                    if combo is not None and name == "self._operand2.is_variable_type":
-                        return combo[1]
-                    return py_calls(name, node, args, kwargs, st, ex, recv)
-                ex = SymExec(call_hook=ch)
-                val = {"self._operand1": v1, "self._operand2": v2, "self": f}
-                der = {"self": D, "self._operand1": sp.Integer(0), "self._operand2": sp.Integer(0)}
+    with chk.part("R-C15-3 derivative rules"):
+        D = sp.Symbol("der", real=True)
+        v1, v2, v = sp.Symbol("v1", positive=True), sp.Symbol("v2", real=True), sp.Symbol("v", real=True)
+        bin_ops = {"add": v1 + v2, "sub": v1 - v2, "mul": v1 * v2, "div": v1 / v2, "pow": v1 ** v2}
+        un_ops = {"negation": -v, "exp": sp.exp(v), "log": sp.log(v), "sin": sp.sin(v), "cos": sp.cos(v), "tan": sp.tan(v), "asin": sp.asin(v),
+                  "acos": sp.acos(v), "atan": sp.atan(v)}
+        for cname, (base, op, cdef) in sorted(ops.items()):
+            dfn = [n for n in cdef.body if isinstance(n, ast.FunctionDef) and n.name == "diff_down"]
+            if not dfn:
+                chk.bad("R-C15-3", "%s defines diff_down" % cname, loc(EXPR, cdef))
+                continue
+            dfn = dfn[0]
+            dfn._rel, dfn._qual = EXPR, cname + ".diff_down"
+            chk.fn(dfn)
+            if base == "BinaryOperator":
+                f = bin_ops.get(op)
+                combos = [(False, False), (False, True), (True, True), (True, False)] if op == "pow" else [None]
+                for combo in combos:
+                    def ch(name, node, args, kwargs, st, ex, recv, combo=combo):
+                        if combo is not None and name == "self._operand2.is_leaf":
+                            return combo[0]
+                        if combo is not None and name == "self._operand2.is_variable_type":
+                            return combo[1]
+                        return py_calls(name, node, args, kwargs, st, ex, recv)
+                    ex = SymExec(call_hook=ch)
+                    val = {"self._operand1": v1, "self._operand2": v2, "self": f}
+                    der = {"self": D, "self._operand1": sp.Integer(0), "self._operand2": sp.Integer(0)}
+                    outs = ex.run(dfn, {"val_dict": val, "der_dict": der, "self": Opaque("self")})
+                    if len(outs) != 1:
+                        raise ExtractError("%s.diff_down: %d paths" % (cname, len(outs)))
+                    o = outs[0]
+                    d1, d2 = o.env["der_dict"]["self._operand1"], o.env["der_dict"]["self._operand2"]
+                    tag = "" if combo is None else " [exponent %s, %s]" % ("leaf" if combo[0] else "expression", "variable type" if combo[1] else "constant type")
+                    chk.expect(is_zero(sp.sympify(d1) - D * sp.diff(f, v1)), "R-C15-3", "%s.diff_down: operand1 receives der * d(op)/d(operand1)%s" % (cname, tag), loc(dfn),
+                               expected=str(D * sp.diff(f, v1)), found=str(d1))
+                    full = D * sp.diff(f, v2)
+                    if combo == (True, False):
+                        okd = is_zero(sp.sympify(d2)) or is_zero(sp.sympify(d2) - full)     # constant exponent: derivative not needed
+                    else:
+                        okd = is_zero(sp.sympify(d2) - full)
+                    chk.expect(okd, "R-C15-3", "%s.diff_down: operand2 receives der * d(op)/d(operand2)%s" % (cname, tag), loc(dfn),
+                               "every variable reached through the exponent needs v1**v2*log(v1) propagated, else its Jacobian entry is silently 0", expected=str(full), found=str(d2))
+                # the same rule with BOTH operands the same node (x*x, e*e with a shared sub-expression): one key in both dictionaries, the adjoint
+                # dictionary a real mapping (a value read before the first store is stale for the second), the node's adjoint starting at a symbol A
+                fa1, fa2 = ctor_fields(repo, "BinaryOperator")[:2]
+                u, A0 = sp.Symbol("u", positive=True), sp.Symbol("A", real=True)
+                fu = f.subs({v1: u, v2: u}, simultaneous=True)
+                for combo in combos:
+                    def ch(name, node, args, kwargs, st, ex, recv, combo=combo):
+                        if combo is not None and name == "self.%s.is_leaf" % fa2:
+                            return combo[0]
+                        if combo is not None and name == "self.%s.is_variable_type" % fa2:
+                            return combo[1]
+                        return py_calls(name, node, args, kwargs, st, ex, recv)
+
+                    def same_node(base_, attr, st):
+                        if isinstance(base_, Opaque) and base_.text == "self" and attr in (fa1, fa2):
+                            return Opaque("u")
+                        return NotImplemented
+                    ex = SymExec(call_hook=ch, attr_hook=same_node)
+                    outs = [o for o in ex.run(dfn, {"val_dict": {"u": u, "self": fu}, "der_dict": {"self": D, "u": A0}, "self": Opaque("self")}) if o.raised is None]
+                    if len(outs) != 1:
+                        raise ExtractError("%s.diff_down (operands aliased): %d paths" % (cname, len(outs)))
+                    got = sp.sympify(outs[0].env["der_dict"]["u"])
+                    want = A0 + D * sp.diff(fu, u)
+                    oka = is_zero(got - want)
+                    if combo == (True, False):       # a constant leaf to its own power: only the base term is required
+                        oka = oka or is_zero(got - (A0 + D * sp.diff(f, v1).subs({v1: u, v2: u}, simultaneous=True)))
+                    tag = "" if combo is None else " [exponent %s, %s]" % ("leaf" if combo[0] else "expression", "variable type" if combo[1] else "constant type")
+                    chk.expect(oka, "R-C15-3", "%s.diff_down with both operands the same node accumulates der * d op(u,u)/du%s" % (cname, tag), loc(dfn),
+                               "when operand1 is operand2 (x*x, e*e) both contributions go to ONE adjoint entry: reading both entries before writing them makes the second "
+                               "store overwrite the first and a term of the derivative is lost", expected=str(want), found=str(got))
+            elif base == "UnaryOperator":
+                ex = SymExec(call_hook=py_calls)
+                val = {"self._operand": v, "self": un_ops.get(op, sp.Symbol("f"))}
+                der = {"self": D, "self._operand": sp.Integer(0)}
                 outs = ex.run(dfn, {"val_dict": val, "der_dict": der, "self": Opaque("self")})
-                if len(outs) != 1:
-                    raise ExtractError("%s.diff_down: %d paths" % (cname, len(outs)))
-                o = outs[0]
-                d1, d2 = o.env["der_dict"]["self._operand1"], o.env["der_dict"]["self._operand2"]
-                tag = "" if combo is None else " [exponent %s, %s]" % ("leaf" if combo[0] else "expression", "variable type" if combo[1] else "constant type")
-                chk.expect(is_zero(sp.sympify(d1) - D * sp.diff(f, v1)), "R-C15-3", "%s.diff_down: operand1 receives der * d(op)/d(operand1)%s" % (cname, tag), loc(dfn),
-                           expected=str(D * sp.diff(f, v1)), found=str(d1))
-                full = D * sp.diff(f, v2)
-                if combo == (True, False):
-                    okd = is_zero(sp.sympify(d2)) or is_zero(sp.sympify(d2) - full)     # constant exponent: derivative not needed
-                else:
-                    okd = is_zero(sp.sympify(d2) - full)
-                chk.expect(okd, "R-C15-3", "%s.diff_down: operand2 receives der * d(op)/d(operand2)%s" % (cname, tag), loc(dfn),
-                           "every variable reached through the exponent needs v1**v2*log(v1) propagated, else its Jacobian entry is silently 0", expected=str(full), found=str(d2))
-            # the same rule with BOTH operands the same node (x*x, e*e with a shared sub-expression): one key in both dictionaries, the adjoint
-            # dictionary a real mapping (a value read before the first store is stale for the second), the node's adjoint starting at a symbol A
-            fa1, fa2 = ctor_fields(repo, "BinaryOperator")[:2]
-            u, A0 = sp.Symbol("u", positive=True), sp.Symbol("A", real=True)
-            fu = f.subs({v1: u, v2: u}, simultaneous=True)
-            for combo in combos:
-                def ch(name, node, args, kwargs, st, ex, recv, combo=combo):
-                    if combo is not None and name == "self.%s.is_leaf" % fa2:
-                        return combo[0]
-                    if combo is not None and name == "self.%s.is_variable_type" % fa2:
-                        return combo[1]
-                    return py_calls(name, node, args, kwargs, st, ex, recv)
+                d_ = sp.sympify(outs[0].env["der_dict"]["self._operand"])
+                if op in un_ops:
+                    want = D * sp.diff(un_ops[op], v)
+                    chk.expect(is_zero(sp.simplify(d_ - want)), "R-C15-3", "%s.diff_down adds der * d(%s)/d(operand)" % (cname, op), loc(dfn), expected=str(want), found=str(d_))
+                elif op == "abs":
+                    want = D * sp.Piecewise((1, v >= 0), (-1, True))
+                    chk.expect(sp.simplify(d_ - want) == 0, "R-C15-3", "AbsOperator.diff_down adds der * (+1 if operand >= 0 else -1)", loc(dfn), expected=str(want), found=str(d_))
+                elif op == "sign":
+                    chk.expect(d_ == 0, "R-C15-3", "SignOperator.diff_down adds nothing (piecewise constant)", loc(dfn), found=str(d_))
+            elif cname == "IfElseOperator":
+                ex = SymExec(call_hook=py_calls)
+                c = sp.Symbol("cond")
+                val = {"self._if_arg": c, "self._then_arg": sp.Symbol("t"), "self._else_arg": sp.Symbol("e")}
+                der = {"self": D, "self._if_arg": sp.Integer(0), "self._then_arg": sp.Integer(0), "self._else_arg": sp.Integer(0)}
+                outs = ex.run(dfn, {"val_dict": val, "der_dict": der, "self": Opaque("self")})
+                dd = outs[0].env["der_dict"]
+                wt = sp.Piecewise((D, sp.Eq(c, 1)), (0, True))
+                we = sp.Piecewise((0, sp.Eq(c, 1)), (D, True))
+                chk.expect(sp.simplify(dd["self._then_arg"] - wt) == 0 and sp.simplify(dd["self._else_arg"] - we) == 0 and dd["self._if_arg"] == 0, "R-C15-3",
+                           "IfElseOperator.diff_down routes der to the selected branch only", loc(dfn), found=str(dd))
+            elif cname == "InequalityOperator":
+                f_body = ctor_fields(repo, "InequalityOperator")[0]
+                der = {"self": D, "self." + f_body: sp.Integer(0)}
+                outs = SymExec(call_hook=py_calls).run(dfn, {"val_dict": {"self." + f_body: v, "self": sp.Symbol("f")}, "der_dict": der, "self": Opaque("self")})
+                chk.expect(all(is_zero(sp.sympify(o.env["der_dict"]["self." + f_body])) and not o.stores() for o in outs if o.raised is None), "R-C15-3",
+                           "InequalityOperator.diff_down adds nothing", loc(dfn), found=[str(o.env["der_dict"]) for o in outs])
+        # forward sweep: a leaf's adjoint that is already in the dictionary (the leaf is used by an earlier operator, or is the other operand of this one)
+        # is kept, a missing one starts at 0 -- decided on the adjoint dictionary as a real mapping, operands distinct and aliased
+        fb1, fb2 = ctor_fields(repo, "BinaryOperator")[:2]
+        A0 = sp.Symbol("A", real=True)
+        for mname in ("diff_up", "diff_up_symbolic"):
+            ufn = repo.func(EXPR, "BinaryOperator." + mname)
+            chk.fn(ufn)
+            for aliased in (False, True):
+                keys = {fb1: "u", fb2: "u" if aliased else "w"}
 
-                def same_node(base_, attr, st):
-                    if isinstance(base_, Opaque) and base_.text == "self" and attr in (fa1, fa2):
-                        return Opaque("u")
+                def ch(name, node, args, kwargs, st, ex, recv):
+                    if isinstance(node.func, ast.Attribute) and node.func.attr == "is_leaf" and not args:
+                        return True
                     return NotImplemented
-                ex = SymExec(call_hook=ch, attr_hook=same_node)
-                outs = [o for o in ex.run(dfn, {"val_dict": {"u": u, "self": fu}, "der_dict": {"self": D, "u": A0}, "self": Opaque("self")}) if o.raised is None]
-                if len(outs) != 1:
-                    raise ExtractError("%s.diff_down (operands aliased): %d paths" % (cname, len(outs)))
-                got = sp.sympify(outs[0].env["der_dict"]["u"])
-                want = A0 + D * sp.diff(fu, u)
-                oka = is_zero(got - want)
-                if combo == (True, False):       # a constant leaf to its own power: only the base term is required
-                    oka = oka or is_zero(got - (A0 + D * sp.diff(f, v1).subs({v1: u, v2: u}, simultaneous=True)))
-                tag = "" if combo is None else " [exponent %s, %s]" % ("leaf" if combo[0] else "expression", "variable type" if combo[1] else "constant type")
-                chk.expect(oka, "R-C15-3", "%s.diff_down with both operands the same node accumulates der * d op(u,u)/du%s" % (cname, tag), loc(dfn),
-                           "when operand1 is operand2 (x*x, e*e) both contributions go to ONE adjoint entry: reading both entries before writing them makes the second "
-                           "store overwrite the first and a term of the derivative is lost", expected=str(want), found=str(got))
-        elif base == "UnaryOperator":
-            ex = SymExec(call_hook=py_calls)
-            val = {"self._operand": v, "self": un_ops.get(op, sp.Symbol("f"))}
-            der = {"self": D, "self._operand": sp.Integer(0)}
-            outs = ex.run(dfn, {"val_dict": val, "der_dict": der, "self": Opaque("self")})
-            d_ = sp.sympify(outs[0].env["der_dict"]["self._operand"])
-            if op in un_ops:
-                want = D * sp.diff(un_ops[op], v)
-                chk.expect(is_zero(sp.simplify(d_ - want)), "R-C15-3", "%s.diff_down adds der * d(%s)/d(operand)" % (cname, op), loc(dfn), expected=str(want), found=str(d_))
-            elif op == "abs":
-                want = D * sp.Piecewise((1, v >= 0), (-1, True))
-                chk.expect(sp.simplify(d_ - want) == 0, "R-C15-3", "AbsOperator.diff_down adds der * (+1 if operand >= 0 else -1)", loc(dfn), expected=str(want), found=str(d_))
-            elif op == "sign":
-                chk.expect(d_ == 0, "R-C15-3", "SignOperator.diff_down adds nothing (piecewise constant)", loc(dfn), found=str(d_))
-        elif cname == "IfElseOperator":
-            ex = SymExec(call_hook=py_calls)
-            c = sp.Symbol("cond")
-            val = {"self._if_arg": c, "self._then_arg": sp.Symbol("t"), "self._else_arg": sp.Symbol("e")}
-            der = {"self": D, "self._if_arg": sp.Integer(0), "self._then_arg": sp.Integer(0), "self._else_arg": sp.Integer(0)}
-            outs = ex.run(dfn, {"val_dict": val, "der_dict": der, "self": Opaque("self")})
-            dd = outs[0].env["der_dict"]
-            wt = sp.Piecewise((D, sp.Eq(c, 1)), (0, True))
-            we = sp.Piecewise((0, sp.Eq(c, 1)), (D, True))
-            chk.expect(sp.simplify(dd["self._then_arg"] - wt) == 0 and sp.simplify(dd["self._else_arg"] - we) == 0 and dd["self._if_arg"] == 0, "R-C15-3",
-                       "IfElseOperator.diff_down routes der to the selected branch only", loc(dfn), found=str(dd))
-        elif cname == "InequalityOperator":
-            f_body = ctor_fields(repo, "InequalityOperator")[0]
-            der = {"self": D, "self." + f_body: sp.Integer(0)}
-            outs = SymExec(call_hook=py_calls).run(dfn, {"val_dict": {"self." + f_body: v, "self": sp.Symbol("f")}, "der_dict": der, "self": Opaque("self")})
-            chk.expect(all(is_zero(sp.sympify(o.env["der_dict"]["self." + f_body])) and not o.stores() for o in outs if o.raised is None), "R-C15-3",
-                       "InequalityOperator.diff_down adds nothing", loc(dfn), found=[str(o.env["der_dict"]) for o in outs])
-    # forward sweep: a leaf's adjoint that is already in the dictionary (the leaf is used by an earlier operator, or is the other operand of this one)
-    # is kept, a missing one starts at 0 -- decided on the adjoint dictionary as a real mapping, operands distinct and aliased
-    fb1, fb2 = ctor_fields(repo, "BinaryOperator")[:2]
-    A0 = sp.Symbol("A", real=True)
-    for mname in ("diff_up", "diff_up_symbolic"):
-        ufn = repo.func(EXPR, "BinaryOperator." + mname)
-        chk.fn(ufn)
-        for aliased in (False, True):
-            keys = {fb1: "u", fb2: "u" if aliased else "w"}
 
-            def ch(name, node, args, kwargs, st, ex, recv):
-                if isinstance(node.func, ast.Attribute) and node.func.attr == "is_leaf" and not args:
-                    return True
-                return NotImplemented
+                def node_of(base_, attr, st, keys=keys):
+                    if isinstance(base_, Opaque) and base_.text == "self" and attr in keys:
+                        return Opaque(keys[attr])
+                    return NotImplemented
+                ex = SymExec(call_hook=ch, attr_hook=node_of)
 
-            def node_of(base_, attr, st, keys=keys):
-                if isinstance(base_, Opaque) and base_.text == "self" and attr in keys:
-                    return Opaque(keys[attr])
-                return NotImplemented
-            ex = SymExec(call_hook=ch, attr_hook=node_of)
+                def member(txt, test, st, ex=ex):
+                    neg = False
+                    while isinstance(test, ast.UnaryOp) and isinstance(test.op, ast.Not):
+                        test = test.operand
+                    if isinstance(test, ast.Compare) and len(test.ops) == 1 and isinstance(test.ops[0], (ast.In, ast.NotIn)):
+                        a_, b_ = ex.ev(test.left, st), ex.ev(test.comparators[0], st)
+                        if isinstance(b_, dict) and isinstance(a_, Opaque):
+                            return (a_.text in b_) == isinstance(test.ops[0], ast.In)
+                    return None
+                ex.test_hook = member
+                outs = [o for o in ex.run(ufn, {"val_dict": {}, "der_dict": {"u": A0}, "self": Opaque("self")}) if o.raised is None]
+                dd = outs[0].env["der_dict"] if len(outs) == 1 else {}
+                oku = len(outs) == 1 and dd.get("u") == A0 and (aliased or (dd.get("w") is not None and is_zero(sp.sympify(dd.get("w")))))
+                chk.expect(oku, "R-C15-3", "BinaryOperator.%s keeps the adjoint a leaf operand already has and starts a new one at 0 [%s]" % (mname, "operands the same leaf" if aliased else "distinct leaves"),
+                           loc(ufn), "a leaf shared by several operators (or used twice by one) accumulates its adjoint over all of them: resetting it drops the earlier contributions",
+                           expected="u: A" + ("" if aliased else ", w: 0"), found=str(dd))
+        chk.floor("R-C15-3", (4 + 4) * 2 + 11 + 2 + (4 + 4) + 4)
+        # operator overloads: the value denoted by each method of ExpressionBase, for `other` = 0, 1 and two other numbers, obtained by running the
+        # method (whatever its statement shape) with  self._binary_operation_helper(x, K) := self <op of K> x  and  Float(x) := x
+        eb = repo.cls(EXPR, "ExpressionBase")
+        SELF = sp.Symbol("self", positive=True)
+        cls_op = {c: o for c, (b, o, _) in ops.items() if b == "BinaryOperator"}
+        sym_op = {"add": lambda a, b: a + b, "sub": lambda a, b: a - b, "mul": lambda a, b: a * b, "div": lambda a, b: a / b, "pow": lambda a, b: a ** b}
 
-            def member(txt, test, st, ex=ex):
-                neg = False
-                while isinstance(test, ast.UnaryOp) and isinstance(test.op, ast.Not):
-                    test = test.operand
-                if isinstance(test, ast.Compare) and len(test.ops) == 1 and isinstance(test.ops[0], (ast.In, ast.NotIn)):
-                    a_, b_ = ex.ev(test.left, st), ex.ev(test.comparators[0], st)
-                    if isinstance(b_, dict) and isinstance(a_, Opaque):
-                        return (a_.text in b_) == isinstance(test.ops[0], ast.In)
-                return None
-            ex.test_hook = member
-            outs = [o for o in ex.run(ufn, {"val_dict": {}, "der_dict": {"u": A0}, "self": Opaque("self")}) if o.raised is None]
-            dd = outs[0].env["der_dict"] if len(outs) == 1 else {}
-            oku = len(outs) == 1 and dd.get("u") == A0 and (aliased or (dd.get("w") is not None and is_zero(sp.sympify(dd.get("w")))))
-            chk.expect(oku, "R-C15-3", "BinaryOperator.%s keeps the adjoint a leaf operand already has and starts a new one at 0 [%s]" % (mname, "operands the same leaf" if aliased else "distinct leaves"),
-                       loc(ufn), "a leaf shared by several operators (or used twice by one) accumulates its adjoint over all of them: resetting it drops the earlier contributions",
-                       expected="u: A" + ("" if aliased else ", w: 0"), found=str(dd))
-    chk.floor("R-C15-3", (4 + 4) * 2 + 11 + 2 + (4 + 4) + 4)
-    # operator overloads: the value denoted by each method of ExpressionBase, for `other` = 0, 1 and two other numbers, obtained by running the
-    # method (whatever its statement shape) with  self._binary_operation_helper(x, K) := self <op of K> x  and  Float(x) := x
-    eb = repo.cls(EXPR, "ExpressionBase")
-    SELF = sp.Symbol("self", positive=True)
-    cls_op = {c: o for c, (b, o, _) in ops.items() if b == "BinaryOperator"}
-    sym_op = {"add": lambda a, b: a + b, "sub": lambda a, b: a - b, "mul": lambda a, b: a * b, "div": lambda a, b: a / b, "pow": lambda a, b: a ** b}
+        def overload_hook(name, node, args, kwargs, st, ex, recv):
+            if isinstance(node.func, ast.Attribute) and node.func.attr == "_binary_operation_helper" and len(args) == 2:
+                r = recv if recv is not None else ex.ev(node.func.value, st)
+                k = args[1].text if isinstance(args[1], Opaque) else None
+                if isinstance(r, sp.Basic) and cls_op.get(k) in sym_op:
+                    return sym_op[cls_op[k]](r, ex.S(args[0]))
+                raise ExtractError("cannot interpret %s" % unparse(node))
+            if isinstance(node.func, ast.Attribute) and node.func.attr == "_unary_operation_helper" and len(args) == 1 and isinstance(args[0], Opaque) \
+                    and ops.get(args[0].text, (None, None))[1] == "negation":
+                r = recv if recv is not None else ex.ev(node.func.value, st)
+                return -ex.S(r)
+            if name == "Float" and len(args) == 1:
+                return args[0]
+            return NotImplemented
 
-    def overload_hook(name, node, args, kwargs, st, ex, recv):
-        if isinstance(node.func, ast.Attribute) and node.func.attr == "_binary_operation_helper" and len(args) == 2:
-            r = recv if recv is not None else ex.ev(node.func.value, st)
-            k = args[1].text if isinstance(args[1], Opaque) else None
-            if isinstance(r, sp.Basic) and cls_op.get(k) in sym_op:
-                return sym_op[cls_op[k]](r, ex.S(args[0]))
-            raise ExtractError("cannot interpret %s" % unparse(node))
-        if isinstance(node.func, ast.Attribute) and node.func.attr == "_unary_operation_helper" and len(args) == 1 and isinstance(args[0], Opaque) \
-                and ops.get(args[0].text, (None, None))[1] == "negation":
-            r = recv if recv is not None else ex.ev(node.func.value, st)
-            return -ex.S(r)
-        if name == "Float" and len(args) == 1:
-            return args[0]
-        return NotImplemented
+        def denotes(f, x):
+            r = eval_native(repo, f, {f.args.args[0].arg: SELF, f.args.args[1].arg: x}, overload_hook)
+            return r if isinstance(r, str) else sp.sympify(r)
 
-    def denotes(f, x):
-        r = eval_native(repo, f, {f.args.args[0].arg: SELF, f.args.args[1].arg: x}, overload_hook)
-        return r if isinstance(r, str) else sp.sympify(r)
-
-    probes = (sp.Rational(5, 2), 7)
-    for nm, cls_, refl in (("__rsub__", "SubtractOperator", True), ("__rtruediv__", "DivideOperator", True), ("__rpow__", "PowerOperator", True),
-                           ("__radd__", "AddOperator", True), ("__rmul__", "MultiplyOperator", True),
-                           ("__sub__", "SubtractOperator", False), ("__truediv__", "DivideOperator", False), ("__pow__", "PowerOperator", False),
-                           ("__add__", "AddOperator", False), ("__mul__", "MultiplyOperator", False)):
-        f = method_of(repo, eb, nm)
-        if f is None:
-            chk.bad("R-C15-3", "ExpressionBase.%s exists" % nm, loc(EXPR, eb))
-            continue
-        if cls_op.get(cls_) not in sym_op:
-            raise AnchorError("binary operator class %s vanished" % cls_)
-        op_ = sym_op[cls_op[cls_]]
-        want = (lambda x: op_(sp.sympify(x), SELF)) if refl else (lambda x: op_(SELF, sp.sympify(x)))
-        got = {x: denotes(f, x if not isinstance(x, sp.Rational) or x.is_Integer else float(x)) for x in probes}
-        ok_r = all(not isinstance(g, str) and is_zero(g - want(x)) for x, g in got.items())
-        if refl:
-            chk.expect(ok_r, "R-C15-3", "ExpressionBase.%s computes Float(other) <op> self (foreign value on the LEFT)" % nm, loc(f),
-                       "a reflected operator must keep the operand order of the source expression", expected=str(want(probes[0])), found=str(got[probes[0]]))
-        else:
-            chk.expect(ok_r, "R-C15-3", "ExpressionBase.%s builds %s(self, other)" % (nm, cls_), loc(f), expected=str(want(probes[0])), found=str(got[probes[0]]))
-        # short-cuts for 0 / 1 must be algebraic identities (raising is right only where the operation is undefined)
-        bad_sc = {}
-        for x in (0, 1, 0.0, 1.0):
-            g, w = denotes(f, x), want(int(x))
-            undefined = w.has(sp.zoo, sp.nan, sp.oo)
-            if (g == "raise") != undefined or (g != "raise" and not is_zero(g - w)):
-                bad_sc[x] = (str(g), str(w))
-        chk.expect(not bad_sc, "R-C15-3", "ExpressionBase.%s constant short-cuts are identities" % nm, loc(f), expected={k: v[1] for k, v in bad_sc.items()},
-                   found={k: v[0] for k, v in bad_sc.items()})
-    # ---------------------------------------------------------------- R-C15-4 sibling bookkeeping
-    model = repo.cls(AML, "Model")
-    mm = repo.methods(model)
-    maps = {"var": "_var_cvar_map", "param": "_param_cparam_map", "float": "_float_cfloat_map"}
-    for kind, own in maps.items():
-        for pre in ("_increment_", "_decrement_"):
-            f = mm.get(pre + kind)
+        probes = (sp.Rational(5, 2), 7)
+        for nm, cls_, refl in (("__rsub__", "SubtractOperator", True), ("__rtruediv__", "DivideOperator", True), ("__rpow__", "PowerOperator", True),
+                               ("__radd__", "AddOperator", True), ("__rmul__", "MultiplyOperator", True),
+                               ("__sub__", "SubtractOperator", False), ("__truediv__", "DivideOperator", False), ("__pow__", "PowerOperator", False),
+                               ("__add__", "AddOperator", False), ("__mul__", "MultiplyOperator", False)):
+            f = method_of(repo, eb, nm)
             if f is None:
-                raise AnchorError("Model.%s%s vanished" % (pre, kind))
-            chk.fn(f)
-            usedmaps = {n.attr for n in walk(f) if isinstance(n, ast.Attribute) and n.attr.endswith("_map") and dotted(n.value) == "self"}
-            chk.expect(usedmaps == {own}, "R-C15-4", "Model.%s%s touches only its own leaf map %s" % (pre, kind, own), loc(f),
-                       "the three sibling methods differ only by the systematic renaming var/param/float; reading a sibling's map raises KeyError for a shared leaf",
-                       expected=[own], found=sorted(usedmaps))
-            if pre == "_increment_":
-                addc = [c for c in calls(f) if last_attr(c) == "add_" + kind]
-                chk.expect(len(addc) == 1, "R-C15-4", "Model._increment_%s creates the C++ leaf with add_%s" % (kind, kind), loc(f), found=[call_name(c) for c in calls(f)])
-                # per path of the method: the path that creates the C++ leaf leaves the count at 1, every other path at <old count> + 1
-                pn = f.args.args[1].arg
-                ex_ = SymExec()
-                outs_ = [o for o in ex_.run(f, {"self": Opaque("self")}) if o.raised is None]
-                okc, seen_ = bool(outs_), set()
-                for o in outs_:
-                    creates = any(e[2][0].endswith(".add_" + kind) for e in o.calls())
-                    stv = [e[2] for e in o.stores("self._refcounts[%s]" % pn)]
-                    seen_.add(creates)
-                    try:
-                        want_ = sp.Integer(1) if creates else ex_.sym("self._refcounts[%s]" % pn) + 1
-                        okc = okc and bool(stv) and is_zero(ex_.S(stv[-1]) - want_)
-                    except ExtractError:
-                        okc = False
-                chk.expect(okc and seen_ == {True, False}, "R-C15-4", "Model._increment_%s counts references (1 on creation, +1 afterwards)" % kind, loc(f),
-                           found=[(o.label(), [str(e[2]) for e in o.stores("self._refcounts")]) for o in outs_])
+                chk.bad("R-C15-3", "ExpressionBase.%s exists" % nm, loc(EXPR, eb))
+                continue
+            if cls_op.get(cls_) not in sym_op:
+                raise AnchorError("binary operator class %s vanished" % cls_)
+            op_ = sym_op[cls_op[cls_]]
+            want = (lambda x: op_(sp.sympify(x), SELF)) if refl else (lambda x: op_(SELF, sp.sympify(x)))
+            got = {x: denotes(f, x if not isinstance(x, sp.Rational) or x.is_Integer else float(x)) for x in probes}
+            ok_r = all(not isinstance(g, str) and is_zero(g - want(x)) for x, g in got.items())
+            if refl:
+                chk.expect(ok_r, "R-C15-3", "ExpressionBase.%s computes Float(other) <op> self (foreign value on the LEFT)" % nm, loc(f),
+                           "a reflected operator must keep the operand order of the source expression", expected=str(want(probes[0])), found=str(got[probes[0]]))
             else:
-                rm = [c for c in calls(f) if last_attr(c) == "remove_" + kind]
-                chk.expect(len(rm) == 1, "R-C15-4", "Model._decrement_%s removes the C++ leaf with remove_%s when the count reaches zero" % (kind, kind), loc(f))
-    # (which leaves a constraint registers, records and releases is decided on histories by R-C15-12: reference counts equal the number of recording constraints,
-    #  the evaluator holds exactly the referenced leaves, nothing dangles)
-    chk.floor("R-C15-4", 6 * 2)
+                chk.expect(ok_r, "R-C15-3", "ExpressionBase.%s builds %s(self, other)" % (nm, cls_), loc(f), expected=str(want(probes[0])), found=str(got[probes[0]]))
+            # short-cuts for 0 / 1 must be algebraic identities (raising is right only where the operation is undefined)
+            bad_sc = {}
+            for x in (0, 1, 0.0, 1.0):
+                g, w = denotes(f, x), want(int(x))
+                undefined = w.has(sp.zoo, sp.nan, sp.oo)
+                if (g == "raise") != undefined or (g != "raise" and not is_zero(g - w)):
+                    bad_sc[x] = (str(g), str(w))
+            chk.expect(not bad_sc, "R-C15-3", "ExpressionBase.%s constant short-cuts are identities" % nm, loc(f), expected={k: v[1] for k, v in bad_sc.items()},
+                       found={k: v[0] for k, v in bad_sc.items()})
+    # ---------------------------------------------------------------- R-C15-4 sibling bookkeeping
+    with chk.part("R-C15-4 sibling bookkeeping"):
+        model = repo.cls(AML, "Model")
+        mm = repo.methods(model)
+        maps = {"var": "_var_cvar_map", "param": "_param_cparam_map", "float": "_float_cfloat_map"}
+        for kind, own in maps.items():
+            for pre in ("_increment_", "_decrement_"):
+                f = mm.get(pre + kind)
+                if f is None:
+                    raise AnchorError("Model.%s%s vanished" % (pre, kind))
+                chk.fn(f)
+                usedmaps = {n.attr for n in walk(f) if isinstance(n, ast.Attribute) and n.attr.endswith("_map") and dotted(n.value) == "self"}
+                chk.expect(usedmaps == {own}, "R-C15-4", "Model.%s%s touches only its own leaf map %s" % (pre, kind, own), loc(f),
+                           "the three sibling methods differ only by the systematic renaming var/param/float; reading a sibling's map raises KeyError for a shared leaf",
+                           expected=[own], found=sorted(usedmaps))
+                if pre == "_increment_":
+                    addc = [c for c in calls(f) if last_attr(c) == "add_" + kind]
+                    chk.expect(len(addc) == 1, "R-C15-4", "Model._increment_%s creates the C++ leaf with add_%s" % (kind, kind), loc(f), found=[call_name(c) for c in calls(f)])
+                    # per path of the method: the path that creates the C++ leaf leaves the count at 1, every other path at <old count> + 1
+                    pn = f.args.args[1].arg
+                    ex_ = SymExec()
+                    outs_ = [o for o in ex_.run(f, {"self": Opaque("self")}) if o.raised is None]
+                    okc, seen_ = bool(outs_), set()
+                    for o in outs_:
+                        creates = any(e[2][0].endswith(".add_" + kind) for e in o.calls())
+                        stv = [e[2] for e in o.stores("self._refcounts[%s]" % pn)]
+                        seen_.add(creates)
+                        try:
+                            want_ = sp.Integer(1) if creates else ex_.sym("self._refcounts[%s]" % pn) + 1
+                            okc = okc and bool(stv) and is_zero(ex_.S(stv[-1]) - want_)
+                        except ExtractError:
+                            okc = False
+                    chk.expect(okc and seen_ == {True, False}, "R-C15-4", "Model._increment_%s counts references (1 on creation, +1 afterwards)" % kind, loc(f),
+                               found=[(o.label(), [str(e[2]) for e in o.stores("self._refcounts")]) for o in outs_])
+                else:
+                    rm = [c for c in calls(f) if last_attr(c) == "remove_" + kind]
+                    chk.expect(len(rm) == 1, "R-C15-4", "Model._decrement_%s removes the C++ leaf with remove_%s when the count reaches zero" % (kind, kind), loc(f))
+        # (which leaves a constraint registers, records and releases is decided on histories by R-C15-12: reference counts equal the number of recording constraints,
+        #  the evaluator holds exactly the referenced leaves, nothing dangles)
+        chk.floor("R-C15-4", 6 * 2)
 
     # ---------------------------------------------------------------- R-C15-5 dispatch parity
-    sa_, da_ = mm.get("__setattr__"), mm.get("__delattr__")
-    if sa_ is None or da_ is None:
-        raise AnchorError("Model.__setattr__/__delattr__ vanished")
+    with chk.part("R-C15-5 dispatch parity"):
+        sa_, da_ = mm.get("__setattr__"), mm.get("__delattr__")
+        if sa_ is None or da_ is None:
+            raise AnchorError("Model.__setattr__/__delattr__ vanished")
 
-    def type_tests(f):
-        out = set()
-        for n in walk(f):
-            if isinstance(n, ast.Compare) and isinstance(n.left, ast.Call) and call_name(n.left) == "type" and unparse(n.left.args[0]) == "val":
-                out.add((type(n.ops[0]).__name__, unparse(n.comparators[0])))
-        return out
-    ts, td = type_tests(sa_), type_tests(da_)
-    chk.expect(ts == td, "R-C15-5", "Model.__delattr__ dispatches on the same type tests as __setattr__", loc(da_),
-               "what __setattr__ registers with the evaluator, __delattr__ must un-register (a test that can never be true leaves constraints registered)",
-               expected=sorted(ts), found=sorted(td))
-    for n in walk(da_):
-        if isinstance(n, ast.Compare) and isinstance(n.left, ast.Call) and call_name(n.left) == "type":
-            rhs = n.comparators[0]
-            chk.expect(not isinstance(rhs, ast.Call), "R-C15-5", "type test `%s` compares with a class, not an instance" % unparse(n), loc(da_, n))
-    reg_s = {unparse(t[1]) if not isinstance(t[1], str) else t[1] for t in ts}
-    chk.expect(any(last_attr(c) == "_register_constraint" for c in calls(sa_)) and any(last_attr(c) == "_remove_constraint" for c in calls(da_)), "R-C15-5",
-               "setattr registers / delattr removes constraints", loc(da_))
-    chk.floor("R-C15-5", 3)
+        def type_tests(f):
+            out = set()
+            for n in walk(f):
+                if isinstance(n, ast.Compare) and isinstance(n.left, ast.Call) and call_name(n.left) == "type" and unparse(n.left.args[0]) == "val":
+                    out.add((type(n.ops[0]).__name__, unparse(n.comparators[0])))
+            return out
+        ts, td = type_tests(sa_), type_tests(da_)
+        chk.expect(ts == td, "R-C15-5", "Model.__delattr__ dispatches on the same type tests as __setattr__", loc(da_),
+                   "what __setattr__ registers with the evaluator, __delattr__ must un-register (a test that can never be true leaves constraints registered)",
+                   expected=sorted(ts), found=sorted(td))
+        for n in walk(da_):
+            if isinstance(n, ast.Compare) and isinstance(n.left, ast.Call) and call_name(n.left) == "type":
+                rhs = n.comparators[0]
+                chk.expect(not isinstance(rhs, ast.Call), "R-C15-5", "type test `%s` compares with a class, not an instance" % unparse(n), loc(da_, n))
+        reg_s = {unparse(t[1]) if not isinstance(t[1], str) else t[1] for t in ts}
+        chk.expect(any(last_attr(c) == "_register_constraint" for c in calls(sa_)) and any(last_attr(c) == "_remove_constraint" for c in calls(da_)), "R-C15-5",
+                   "setattr registers / delattr removes constraints", loc(da_))
+        chk.floor("R-C15-5", 3)
 
     # ---------------------------------------------------------------- R-C15-7 constant folding only folds constants
-    # building an expression may evaluate eagerly (return a number instead of an operator) only when EVERY operand is a constant
-    # (a Float or a native number): a Param or Var read at build time freezes a value that "changing values" later must affect.
-    fold_rules(repo, chk)
+    with chk.part("R-C15-7 constant folding only folds constants"):
+        # building an expression may evaluate eagerly (return a number instead of an operator) only when EVERY operand is a constant
+        # (a Float or a native number): a Param or Var read at build time freezes a value that "changing values" later must affect.
+        fold_rules(repo, chk)
 
     # ---------------------------------------------------------------- R-C15-10 direct evaluation reads the live value
-    live_value_rules(repo, chk)
+    with chk.part("R-C15-10 direct evaluation reads the live value"):
+        live_value_rules(repo, chk)
 
     # ---------------------------------------------------------------- R-C15-11 numpy scalar constants build like python numbers
-    constant_type_rules(repo, chk)
-    chk.note("known, unrepaired (outside the simulator's models): the Jacobian of if_else does not mask the inactive branch - IfElseOperator.diff_down "
-             "propagates if_else(cond, der, 0) into the branch not taken, so an undefined partial there (nan / inf) gives 0*nan = nan in the compiled Jacobian; noted, not a rule")
+    with chk.part("R-C15-11 numpy scalar constants build like python numbers"):
+        constant_type_rules(repo, chk)
+        chk.note("known, unrepaired (outside the simulator's models): the Jacobian of if_else does not mask the inactive branch - IfElseOperator.diff_down "
+                 "propagates if_else(cond, der, 0) into the branch not taken, so an undefined partial there (nan / inf) gives 0*nan = nan in the compiled Jacobian; noted, not a rule")
 
     # ---------------------------------------------------------------- R-C15-8 expression DAG discipline
-    # (a) wherever the operators of another expression are merged into an operator list, operators already present are skipped (a shared
-    #     sub-expression is listed once: reverse differentiation visits every listed operator once);
-    # (b) get_rpn builds each operator's program in a NEW list: an operand's program may be needed again by another parent.
-    dag_rules(repo, chk, rpn_info)
-    pipeline_rules(repo, chk)
+    with chk.part("R-C15-8 expression DAG discipline"):
+        # (a) wherever the operators of another expression are merged into an operator list, operators already present are skipped (a shared
+        #     sub-expression is listed once: reverse differentiation visits every listed operator once);
+        # (b) get_rpn builds each operator's program in a NEW list: an operand's program may be needed again by another parent.
+        dag_rules(repo, chk, rpn_info)
+        pipeline_rules(repo, chk)
 
     # ---------------------------------------------------------------- R-C15-9 "changing values": an assignment always reaches the compiled object
-    # Leaf._value is only a Python-side cache; the solver writes the live value into the compiled object without updating the cache, so the
-    # setter may never skip the write-through on the strength of the cache
-    from ..cfg import CFG
-    vs = repo.func(EXPR, "Leaf.value", kind="setter")
-    chk.fn(vs)
-    g = CFG(vs)
-    stores = g.nodes_where(lambda node, d: isinstance(node, ast.Assign) and unparse(node.targets[0]) in ("self._c_obj.value",))
-    tests = g.nodes_where(lambda node, d: d["kind"] == "test" and "_c_obj" in unparse(node) and "None" in unparse(node))
-    if not stores:
-        raise ExtractError("Leaf.value setter: write-through to the compiled object not found")
-    # edges that legitimately skip the store: the 'no compiled object' outcome of the _c_obj test
-    skip_edges = []
-    for t in tests:
-        txt = unparse(g.node_ast(t))
-        outcome = False if "is not None" in txt else True
-        skip_edges += g.branch_edges(t, outcome)
-    w = g.can_reach_avoiding(g.entry, {g.exit}, stores, drop_edges=skip_edges)
-    chk.expect(w is None, "R-C15-9", "Leaf.value = v writes v into the compiled object on every path that has one", loc(vs),
-               "a path returns before `self._c_obj.value = val`: after a solve (which loads values into the compiled object only) assigning a value equal to the stale Python-side "
-               "cache is dropped and residuals / Jacobian stay at the solver's point", expected="no exit that bypasses the write-through", found=g.path_text(w) if w else None)
+    with chk.part("R-C15-9 'changing values': an assignment always reaches the compiled object"):
+        # Leaf._value is only a Python-side cache; the solver writes the live value into the compiled object without updating the cache, so the
+        # setter may never skip the write-through on the strength of the cache
+        from ..cfg import CFG
+        vs = repo.func(EXPR, "Leaf.value", kind="setter")
+        chk.fn(vs)
+        g = CFG(vs)
+        stores = g.nodes_where(lambda node, d: isinstance(node, ast.Assign) and unparse(node.targets[0]) in ("self._c_obj.value",))
+        tests = g.nodes_where(lambda node, d: d["kind"] == "test" and "_c_obj" in unparse(node) and "None" in unparse(node))
+        if not stores:
+            raise ExtractError("Leaf.value setter: write-through to the compiled object not found")
+        # edges that legitimately skip the store: the 'no compiled object' outcome of the _c_obj test
+        skip_edges = []
+        for t in tests:
+            txt = unparse(g.node_ast(t))
+            outcome = False if "is not None" in txt else True
+            skip_edges += g.branch_edges(t, outcome)
+        w = g.can_reach_avoiding(g.entry, {g.exit}, stores, drop_edges=skip_edges)
+        chk.expect(w is None, "R-C15-9", "Leaf.value = v writes v into the compiled object on every path that has one", loc(vs),
+                   "a path returns before `self._c_obj.value = val`: after a solve (which loads values into the compiled object only) assigning a value equal to the stale Python-side "
+                   "cache is dropped and residuals / Jacobian stay at the solver's point", expected="no exit that bypasses the write-through", found=g.path_text(w) if w else None)
 
 
 
